@@ -106,6 +106,11 @@ impl Driver {
             let mut desc = desc;
             desc["pool_aggregates_consistent"] = json!(crate::pred::aggregates_consistent(&d));
             desc["c11_f3_situation_seen"] = json!(self.f3_seen);
+            if real_size as u64 > consensus.max_block_bytes() || cycles > consensus.max_block_cycles() {
+                if let Some(sig) = self.known_c11_signature() {
+                    desc["known_signature"] = json!(sig);
+                }
+            }
             desc
         };
         // (iii) limits
@@ -244,14 +249,15 @@ impl Driver {
         if real_size != size || real_cycles != cycles { bad.push(json!({"reported size/cycles": [size, cycles], "real": [real_size, real_cycles]})); }
         if real_size > limit || real_cycles > max_cycles { bad.push(json!({"limits": [limit, max_cycles], "real": [real_size, real_cycles]})); }
         let aggs_ok = crate::pred::aggregates_consistent(&dump);
+        let sel_sig = if aggs_ok { None } else if self.f3_seen { Some("add_entry of a tx that already has pooled children") } else if self.f10_seen { Some("remove_entry of a tx that has both pooled ancestors and pooled descendants") } else { None };
         if self.obs.c13_cases.len() < 4000 {
             self.obs.c13_cases.push(crate::cases::TemplateCase::Selection {
                 pool: crate::cases::abstract_pool(&self.w, &dump), selected: sel.iter().filter_map(|i| self.w.by_short.get(i).map(|x| *x as u64)).collect(),
-                size_limit: limit as u64, cycles_limit: max_cycles, desc: json!({"selected": ids_json(&self.w, &sel), "limit": limit, "max_cycles": max_cycles}) });
+                size_limit: limit as u64, cycles_limit: max_cycles, desc: json!({"selected": ids_json(&self.w, &sel), "limit": limit, "max_cycles": max_cycles, "known_signature": if bad.is_empty() { None } else { sel_sig }}) });
         }
         if !bad.is_empty() {
             // stale ancestors_* (C11 findings F3/F10) make the selector trust wrong package sizes / orders
-            let sig = if aggs_ok { None } else if self.f3_seen { Some("add_entry of a tx that already has pooled children") } else if self.f10_seen { Some("remove_entry of a tx that has both pooled ancestors and pooled descendants") } else { None };
+            let sig = sel_sig;
             self.violation("C13 TxSelector selection is not an ancestor-closed parents-first list within the limits",
                 json!({"problems": bad, "selected": ids_json(&self.w, &sel), "size_limit": limit, "cycles_limit": max_cycles, "aggregates_consistent": aggs_ok}), sig);
         }
